@@ -32,10 +32,17 @@ pub fn c01(opts: &Opts) -> Report {
         opts.cases(6_000, 300_000), &|ctx, i| {
             if i % 6 == 5 {
                 // mixed template: literals and sections, repeated and near-duplicate sections, one input
-                let segs = super::templates::segments(&mut ctx.rng, 6);
+                let mut segs = super::templates::segments(&mut ctx.rng, 6);
+                if i % 60 == 17 {
+                    // a flagged replace next to a pattern that spells the flag letters followed by the replace pattern
+                    use super::templates::Seg;
+                    let (a, fl, b) = *ctx.rng.pick(&[("tem", "i", "item"), ("ango", "m", "mango"), ("tem", "s", "stem"), ("ello", "im", "imello")]);
+                    segs = vec![Seg::Sec(vec![Op::Replace(a.into(), "X".into(), fl.into())]), Seg::Lit(" / ".into()), Seg::Sec(vec![Op::Split(",".into(), Range::Range(None, None, false)), Op::Filter(b.into())])];
+                    if ctx.rng.chance(1, 2) { segs.reverse(); }
+                }
                 let (text, secs) = super::templates::assemble(&segs);
                 let all_ops: Vec<Op> = secs.iter().filter_map(|s| if let Section::Sec(o) = s { Some(o.clone()) } else { None }).flatten().collect();
-                let x = gens::input_for(&mut ctx.rng, &all_ops);
+                let x = if i % 60 == 17 { ctx.rng.pick(&["ITEM,item,stem", "tango,mango,TANGO", "Hello,imello,stem"]).to_string() } else { gens::input_for(&mut ctx.rng, &all_ops) };
                 ctx.rep.eval(); ctx.rep.bump("mixed_templates");
                 if secs.len() >= 2 { ctx.rep.nontrivial(&(text.clone(), x.clone())); }
                 let real_out = real::parse_format(&text, &x);
@@ -50,6 +57,14 @@ pub fn c01(opts: &Opts) -> Report {
             }
             let mut ops = if i % 50 == 49 { long_input_ops(&mut ctx.rng) } else { gens::pipeline(&mut ctx.rng, 8) };
             let mut input = if i % 50 == 49 { long_input(&mut ctx.rng) } else { gens::input_for(&mut ctx.rng, &ops) };
+            if i % 12 == 3 {
+                let set = ctx.rng.pick(&["-", "A", "*", "-=", "xy"]).to_string();
+                let cs: Vec<char> = set.chars().collect();
+                let c1 = *ctx.rng.pick(&cs); let c2 = *ctx.rng.pick(&cs); let e1 = gens::alias_mod256(&mut ctx.rng, c1); let e2 = gens::alias_mod256(&mut ctx.rng, c2);
+                input = format!("{}{e1}core{e2}{}", set, set);
+                ops = vec![Op::Trim(set, gens::tdir(&mut ctx.rng))];
+                ctx.rep.bump("trim_low_byte_alias");
+            }
             if i % 12 == 7 {
                 // a plain-text pattern that OCCURS in the input, flags without g/i/x, a replacement with $-references:
                 // the engine expands them whatever shortcut the code takes for literal patterns
@@ -105,7 +120,7 @@ fn representative_ops() -> Vec<Op> {
         Op::Join("-".into()), Op::Replace("a".into(), "b".into(), "g".into()), Op::Replace("zz".into(), "y".into(), String::new()), Op::Upper, Op::Lower,
         Op::Trim(String::new(), TDir::Both), Op::Substring(Range::Range(Some(0), Some(2), false)),
         Op::Append("x".into()), Op::Prepend("y".into()), Op::Surround("'".into()), Op::StripAnsi,
-        Op::Filter("a".into()), Op::FilterNot("zzz".into()), Op::Slice(Range::Range(Some(0), Some(5), false)),
+        Op::Filter("a".into()), Op::FilterNot("zzz".into()), Op::Slice(Range::Range(Some(0), Some(5), false)), Op::Slice(Range::Index(0)),
         Op::Map(vec![Op::Upper]), Op::Map(vec![Op::Split(" ".into(), Range::Range(None, None, false)), Op::Sort(SDir::Asc)]),
         Op::Map(vec![Op::Sort(SDir::Asc)]),
         Op::Sort(SDir::Desc), Op::Reverse, Op::Unique, Op::Pad(4, '*', PDir::Both), Op::RegexExtract("a+".into(), None),
@@ -226,6 +241,32 @@ pub fn c08(opts: &Opts) -> Report {
                 judge(ctx, "C08", &t, &ops, &input, "C08_code_does_this");
                 return;
             }
+            if i % 20 == 11 {
+                // tracing on: items whose multi-byte characters straddle every plausible preview limit of the tracer
+                let lim = *ctx.rng.pick(&[20usize, 30, 40, 50, 60, 64, 80, 100, 128]);
+                let c = *ctx.rng.pick(&['é', '日', '😀']);
+                let items: Vec<String> = (0..4).map(|k| format!("{}{}", "a".repeat(lim - 1 - (k % c.len_utf8().max(2))), c.to_string().repeat(3))).collect();
+                let xin = items.join(",");
+                let text = "{!split:,:..|map:{upper}|join:,}".to_string();
+                let got = real::parse_format(&text, &xin);
+                let want = Out::Ok(items.iter().map(|w| w.to_uppercase()).collect::<Vec<_>>().join(","));
+                ctx.rep.eval(); ctx.rep.bump("traced_straddling_items");
+                if got != want { viol(ctx, format!("C08: with tracing on, {text} over items of about {lim} bytes ending in {c:?} gives {} instead of the item-by-item result", got.show()), vec![("template", text), ("input", xin), ("observed", got.show()), ("expected", want.show()), ("theorem", "C08_same_length".into())]); }
+                return;
+            }
+            if i % 20 == 7 {
+                // lists whose length sits at a power of two or next to it: same length out as in, item by item
+                let n = *ctx.rng.pick(gens::SIZE_SWEEP);
+                let (b, f): (Op, fn(&str) -> String) = ctx.rng.pick(&[(Op::Upper, (|w: &str| w.to_uppercase()) as fn(&str) -> String), (Op::Append("!".into()), |w: &str| format!("{w}!")), (Op::Substring(Range::Range(Some(0), Some(2), false)), |w: &str| w.chars().take(2).collect())]).clone();
+                let items: Vec<String> = (0..n).map(|k| format!("w{k}é")).collect();
+                let xin = items.join(",");
+                let text = print_block(&[Op::Split(",".into(), Range::Range(None, None, false)), Op::Map(vec![b]), Op::Join(",".into())]);
+                let got = real::parse_format(&text, &xin);
+                let want = Out::Ok(items.iter().map(|w| f(w)).collect::<Vec<_>>().join(","));
+                ctx.rep.eval(); ctx.rep.bump("size_sweep_cases");
+                if got != want { viol(ctx, format!("C08: {text} over {n} items gives a different list than item-by-item ({} vs {} bytes)", got.show().len(), want.show().len()), vec![("template", text), ("input", xin), ("observed", got.show()), ("expected", want.show()), ("theorem", "C08_same_length".into())]); }
+                return;
+            }
             if i % 20 == 3 {
                 // a sub-pipeline that fails on the items, directly followed by a slice / filter that would discard them:
                 // the error of an item fails the call whatever happens to the item afterwards
@@ -341,6 +382,35 @@ pub fn c09(opts: &Opts) -> Report {
                 let want = Out::Ok(format!("{} {}", xin.replace(',', &ju), xin.replace(',', &jl)));
                 if got != want { viol(ctx, format!("C09: format({text:?}, {xin:?}) = {} but each join is plain replacement: {}", got.show(), want.show()), vec![("template", text), ("input", xin.into()), ("observed", got.show()), ("expected", want.show()), ("theorem", "C09_join_split_is_replace".into())]); return; }
             }
+            if i % 40 == 21 {
+                // texts whose byte length sits at a power of two or next to it (and at 64 KiB), split twice
+                let len = if ctx.rng.chance(1, 6) { *ctx.rng.pick(&[65_535usize, 65_536, 65_537]) } else { *ctx.rng.pick(gens::SIZE_SWEEP) };
+                let mut xin = String::from("ab,cd,"); xin.push_str(&"z".repeat(len.saturating_sub(6)));
+                for _ in 0..2 {
+                    let got = real::parse_format("{split:,:..|join:+}", &xin);
+                    let g2 = real::parse_format("{split:,:..}", &xin);
+                    ctx.rep.bump("size_sweep_cases");
+                    if got != Out::Ok(xin.replace(',', "+")) || g2 != Out::Ok(xin.clone()) {
+                        viol(ctx, format!("C09: a {}-byte text: split|join:+ gives {} bytes, split alone gives {} bytes", xin.len(), got.show().len(), g2.show().len()), vec![("template", "{split:,:..|join:+}".into()), ("input_description", format!("'ab,cd,' + 'z' up to {len} bytes")), ("theorem", "C09_join_split_is_replace".into())]);
+                        return;
+                    }
+                }
+            }
+            if i % 40 == 33 {
+                // a text nobody has split before, split by several threads at once
+                let len = *ctx.rng.pick(&[40usize, 600, 2_000, 12_000]);
+                let tag = ctx.rng.below(1_000_000_000);
+                let mut xin = format!("n{tag},{i},"); while xin.len() < len { xin.push_str("pq,rs "); }
+                let outs: Vec<Out> = std::thread::scope(|sc| {
+                    let hs: Vec<_> = (0..8).map(|_| { let xin = &xin; sc.spawn(move || real::parse_format("{split:,:..|join:,}", xin)) }).collect();
+                    hs.into_iter().map(|h| h.join().unwrap_or(Out::Panic)).collect()
+                });
+                ctx.rep.bump("first_split_by_eight_threads");
+                if let Some(bad) = outs.iter().find(|o| **o != Out::Ok(xin.clone())) {
+                    viol(ctx, format!("C09: eight threads split a fresh {}-byte text on ',' and join it with ',' at the same time; one of them gets {} bytes back", xin.len(), bad.show().len()), vec![("template", "{split:,:..|join:,}".into()), ("input", xin.clone()), ("observed", bad.show()), ("theorem", "C09_join_split_is_replace".into())]);
+                    return;
+                }
+            }
             if i % 40 == 13 {
                 // two (separator, text) pairs that coincide when separator and text are glued with a delimiter character
                 let d = *ctx.rng.pick(&['\u{1f}', '\u{0}', '\u{1e}', '\n', '|', ':', ' ']);
@@ -432,6 +502,34 @@ pub fn c14(opts: &Opts) -> Report {
                     viol(ctx, format!("C14: {} on {:?} = {} but the regex crate called directly gives {}", t.text, x, t.real.show(), expected.show()),
                          vec![("template", t.text.clone()), ("input", x.clone()), ("observed", t.real.show()), ("expected", expected.show()), ("theorem", "C14_replace_is_engine".into())]);
                 }
+                return;
+            }
+            if i % 30 == 19 {
+                let pat = ctx.rng.pick(&["x", "a", "b", "k", "s"]).to_string();
+                let xin = ctx.rng.pick(&["\u{1E9E}x\u{130}", "\u{212A}a\u{23A}x", "\u{212B}\u{23E}b x", "x\u{1E9E}\u{130}x", "\u{130}\u{1E9E}k\u{212A}"]).to_string();
+                let fl = ctx.rng.pick(&["i", "im", "is", "gi"]).to_string();
+                let ops = vec![Op::Replace(pat.clone(), "-".into(), fl.clone())];
+                let re = regex::Regex::new(&format!("(?{}){pat}", fl.replace('g', ""))).unwrap();
+                let exp = Out::Ok(if fl.contains('g') { re.replace_all(&xin, "-").to_string() } else { re.replace(&xin, "-").to_string() });
+                let t = triple(ctx, &ops, &xin, false);
+                ctx.rep.eval(); ctx.rep.bump("case_length_changing_inputs");
+                if !judge(ctx, "C14", &t, &ops, &xin, "C14_replace_is_engine") { return; }
+                if t.real != exp { viol(ctx, format!("C14: {} on {:?} = {} but the engine gives {}", t.text, xin, t.real.show(), exp.show()), vec![("template", t.text.clone()), ("input", xin.clone()), ("observed", t.real.show()), ("expected", exp.show()), ("theorem", "C14_replace_is_engine".into())]); }
+                return;
+            }
+            if i % 30 == 7 {
+                // items that contain a line break, patterns with an anchored .* (a dot does not match a newline)
+                let pat = ctx.rng.pick(&["^.*foo", "foo.*$", "^.*$", "^.*foo.*$", ".*foo", "^foo"]).to_string();
+                let items = ["x\nfoo", "foo", "foo\nx", "two\nlines", "bar", "afoo b"];
+                let xs = items.join(",");
+                let neg = ctx.rng.chance(1, 2);
+                let ops = vec![Op::Split(",".into(), Range::Range(None, None, false)), if neg { Op::FilterNot(pat.clone()) } else { Op::Filter(pat.clone()) }, Op::Join(",".into())];
+                let re = regex::Regex::new(&pat).unwrap();
+                let exp = Out::Ok(items.iter().filter(|s| re.is_match(s) != neg).cloned().collect::<Vec<_>>().join(","));
+                let t = triple(ctx, &ops, &xs, false);
+                ctx.rep.eval(); ctx.rep.bump("anchored_dot_star_multiline_items");
+                if !judge(ctx, "C14", &t, &ops, &xs, "C14_filter_is_engine") { return; }
+                if t.real != exp { viol(ctx, format!("C14: {} on {:?} = {} but the engine gives {}", t.text, xs, t.real.show(), exp.show()), vec![("template", t.text.clone()), ("input", xs.clone()), ("observed", t.real.show()), ("expected", exp.show()), ("theorem", "C14_filter_is_engine".into())]); }
                 return;
             }
             if i % 30 == 13 {
@@ -534,7 +632,7 @@ pub fn validate_l1(ctx: &mut Ctx, n: u64) {
 
 /* ---------------- C15 ------------------------------------------------------ */
 fn list_input(rng: &mut Rng) -> (String, Vec<String>) {
-    let n = match rng.below(12) { 0 => 0, 1 => 1, 2..=7 => 2 + rng.below(8), 8 => 30 + rng.below(50), 9 => 500 + rng.below(1500), 10 => *rng.pick(&[65usize, 99, 257, 1001]), _ => *rng.pick(&[2049usize, 2051, 4097, 2050]) };
+    let n = match rng.below(12) { 0 => 0, 1 => 1, 2..=7 => 2 + rng.below(8), 8 => 30 + rng.below(50), 9 => 500 + rng.below(1500), 10 => *rng.pick(&[65usize, 99, 257, 1001]), _ => *rng.pick(&[2049usize, 2051, 4097, 2050, 63, 129, 511, 513, 1023, 1025, 4095]) };
     let pool = ["a", "b", "ab", "abc", "", "B", "é", "e", "日", "a ", "10", "9", "z", "aa", "ζ", "A"];
     // items that agree on their first 7-8 BYTES and differ after, with a multi-byte character across byte 8; prefixes of
     // one another; items differing only by a trailing NUL
@@ -580,7 +678,7 @@ pub fn c15(opts: &Opts) -> Report {
                 viol(ctx, format!("C15: reverse|reverse changes {:?}", x), vec![("template", format!("{sp}|reverse|reverse}}")), ("input", x.clone()), ("theorem", "C15_reverse_twice".into())]); return;
             }
             // filter / filter_not partition
-            let pat = *ctx.rng.pick(&["a", "^a", "b$", "^$", ".", "[a-z]", "é", "^.$", "zzz"]);
+            let pat = *ctx.rng.pick(&["a", "^a", "b$", "^$", ".", "[a-z]", "é", "^.$", "zzz", "\\A\\d*\\z", "\\B", "\\Aa?\\z", "x*", "\\d", "\\.txt$"]);
             let fi = get(&format!("|filter:{pat}|join:\\n")); let fnn = get(&format!("|filter_not:{pat}|join:\\n"));
             if let (Out::Ok(a), Out::Ok(b)) = (&fi, &fnn) {
                 let re = regex::Regex::new(pat).unwrap();
@@ -593,6 +691,33 @@ pub fn c15(opts: &Opts) -> Report {
                 }
             } else {
                 viol(ctx, format!("C15: filter on {:?} failed: {} {}", x, fi.show(), fnn.show()), vec![("input", x.clone()), ("template", format!("{sp}|filter:{pat}|join:\\n}}")), ("theorem", "C15_filter_partition".into())]); return;
+            }
+            // sort and sort:desc inside map
+            if i % 10 == 8 {
+                let xin = "b a c;2 10 1;é e z";
+                for d in [SDir::Asc, SDir::Desc] {
+                    let ops = vec![Op::Split(";".into(), Range::Range(None, None, false)), Op::Map(vec![Op::Split(" ".into(), Range::Range(None, None, false)), Op::Sort(d), Op::Join("-".into())]), Op::Join(";".into())];
+                    let t = triple(ctx, &ops, xin, false);
+                    ctx.rep.bump("sort_inside_map");
+                    if !judge(ctx, "C15", &t, &ops, xin, "C15_sort_desc_is_reverse_of_sort") { return; }
+                    let want: String = xin.split(';').map(|g| { let mut v: Vec<&str> = g.split(' ').collect(); v.sort(); if d == SDir::Desc { v.reverse(); } v.join("-") }).collect::<Vec<_>>().join(";");
+                    if t.real != Out::Ok(want.clone()) { viol(ctx, format!("C15: {} on {:?} = {} but the sorted groups are {:?}", t.text, xin, t.real.show(), want), vec![("template", t.text.clone()), ("input", xin.into()), ("observed", t.real.show()), ("expected", want), ("theorem", "C15_sort_is_ascending".into())]); return; }
+                }
+            }
+            // the same partition inside map (its own grammar rules and converter arms), patterns with backslash escapes
+            if i % 10 == 6 {
+                let p2 = *ctx.rng.pick(&["\\.txt$", "\\d", "\\w\\w", "^\\d+$"]);
+                let xin = "a.txt btxt c.md 42;dog 7 x.txt;";
+                let mk = |neg: bool| vec![Op::Split(";".into(), Range::Range(None, None, false)), Op::Map(vec![Op::Split(" ".into(), Range::Range(None, None, false)), if neg { Op::FilterNot(p2.into()) } else { Op::Filter(p2.into()) }, Op::Join(" ".into())]), Op::Join(";".into())];
+                for neg in [false, true] {
+                    let ops = mk(neg);
+                    let t = triple(ctx, &ops, xin, false);
+                    ctx.rep.bump("filters_inside_map");
+                    if !judge(ctx, "C15", &t, &ops, xin, "C15_filter_partition") { return; }
+                    let re = regex::Regex::new(p2).unwrap();
+                    let want: String = xin.split(';').map(|g| g.split(' ').filter(|w| re.is_match(w) != neg).collect::<Vec<_>>().join(" ")).collect::<Vec<_>>().join(";");
+                    if t.real != Out::Ok(want.clone()) { viol(ctx, format!("C15: {} on {:?} = {} but the engine partitions to {:?}", t.text, xin, t.real.show(), want), vec![("template", t.text.clone()), ("input", xin.into()), ("observed", t.real.show()), ("expected", want), ("theorem", "C15_filter_partition".into())]); return; }
+                }
             }
             // a random composition against the model
             let n = 1 + ctx.rng.below(4);
